@@ -3,7 +3,10 @@
                     binaryBase64) on the value held by a key leaf / a Go map key;
    string_to_key  : ytypes/util_types.go stringToKeyType, stringToUnionType (+ enumStringToValue,
                     castToEnumValue, castToOneEnumValue, getLoneUnionType);
-   string_to_gotype : ytypes/util_types.go StringToType (used for ordered-map keys).
+   string_to_gotype : ytypes/util_types.go StringToType (converted ordered-map keys until fix
+                      7d0d94c2; Node.v uses string_to_key for them now; the guards of the
+                      ordered-list theorems still use it: it agrees with string_to_key where it
+                      succeeds, NodeFrameProofs.gotype_key_agree).
    Definitions only.  Floats: %g and big.Rat->float64 come from the key oracle (tables written
    by the harness), ParseFloat from the float oracle of Tree.v. *)
 From Ygot Require Import Tree.Tree Tree.Codec Scalar.Dec Scalar.Base64.
